@@ -51,6 +51,8 @@ fn body_alphabet() -> Vec<S> {
         S::Ret(Some(call("g", vec![]))),
         make("w", call("r", vec![])),
         S::Ret(Some(idx(var("a"), x()))),
+        // a condition on the parameter itself: a type mismatch unless the argument is a boolean
+        S::If(var("p"), vec![S::Ret(Some(num("1")))], None),
         // the captured read sits three call edges down
         S::Ret(Some(call("r3", vec![]))),
         make("w", call("r3", vec![])),
@@ -114,6 +116,14 @@ fn main_alphabet() -> Vec<S> {
         make("y", bin(Op::Or, E::Null, num("5"))),
         make("y", meth(st("abc"), "find", vec![num("5")])),
         make("y", E::Not(Box::new(E::Null))),
+        // static types that do not hold at run time: a non-string for `command`, a function that
+        // can fall off its end, a copy of a re-typed variable, a return type inferred through a
+        // shadowed function name
+        make("t", call("command", vec![x()])),
+        make("y", bin(Op::Add, call("fo", vec![]), num("1"))),
+        make("y", x()),
+        make("t", bin(Op::Sub, var("y"), num("1"))),
+        make("y", call("sh", vec![])),
         // a callee that writes a captured variable without reading it (directly / one call down)
         make("y", call("wr", vec![])),
         make("t", call("wr2", vec![])),
@@ -133,6 +143,8 @@ fn programs(body_len: u32, main_len: u32) -> Gen<Vec<S>> {
             func("r2", &[], vec![S::Ret(Some(call("r", vec![])))]),
             func("r3", &[], vec![S::Ret(Some(call("r2", vec![])))]),
             func("mw", &[], vec![S::If(bin(Op::Gt, var("x"), num("100")), vec![set("x", num("0"))], None)]),
+            func("fo", &[], vec![S::If(bin(Op::Gt, var("x"), num("100")), vec![S::Ret(Some(num("1")))], None)]),
+            func("sh", &[], vec![func("r", &[], vec![S::Ret(Some(st("inner-r")))]), S::Ret(Some(call("r", vec![])))]),
             func("wr", &[], vec![set("x", num("7")), S::Ret(Some(num("1")))]),
             func("wr2", &[], vec![S::Ret(Some(call("wr", vec![])))]),
             func("f", &["p"], body),
@@ -250,6 +262,61 @@ fn recursive_callee_programs() -> Gen<Vec<S>> {
     Gen::of(v)
 }
 
+/// A call that may never return cannot be run both ways; what can be decided is that the plan
+/// does not mark its statement removable. The call sits under a condition that is false at run
+/// time, so both runs terminate, and it is the only statement of the program whose value is
+/// unused: the plan of each program must list no removable statement at all.
+struct NeverRemovable;
+
+fn never_removable_programs() -> Vec<String> {
+    let callees = [
+        "do spin() start jasi (true) start end return 1 end",
+        "do spin() start make k get 0 jasi (k small pass 1) start k get k minus 1 end return k end",
+        "do spin() start return spin2() end do spin2() start jasi (true) start end return 2 end",
+        "do spin() start jasi (not false) start end return 1 end",
+    ];
+    let uses = ["make y get spin()", "make y get spin() add 1", "make y get [spin()]", "make y get 0 y get spin()"];
+    let mut v = Vec::new();
+    for c in callees {
+        for u in uses {
+            v.push(format!("{c}\nmake x get 0\nif to say (x na 1) start {u} shout(\"never\") end\nshout(\"done\")\n"));
+        }
+    }
+    v
+}
+
+impl Space for NeverRemovable {
+    fn id(&self) -> String {
+        "possibly-nonterminating-callees-fast".into()
+    }
+    fn size(&self) -> u64 {
+        never_removable_programs().len() as u64
+    }
+    fn profile(&self) -> Profile {
+        Profile::Fast
+    }
+    fn chunk(&self) -> u64 {
+        4
+    }
+    fn describe(&self, i: u64) -> String {
+        never_removable_programs()[i as usize].clone()
+    }
+    fn run(&self, ctx: &mut Ctx, i: u64) -> Outcome {
+        let text = never_removable_programs()[i as usize].clone();
+        let o = drive::run_pipeline(ctx, &text, M1, RunOpts::default());
+        if !matches!(o.front, Front::Accepted) {
+            return Outcome::bad("differs", Violation::new("script-rejected", text, json!(o.show())));
+        }
+        if !o.removable_stmts.is_empty() {
+            return Outcome::bad(
+                "differs",
+                Violation::new("statement-that-may-not-terminate-marked-removable", text, json!({"removable_statement_ids": o.removable_stmts, "plan": o.plan_some})),
+            );
+        }
+        Outcome::ok("not removable", o.plan_some)
+    }
+}
+
 pub fn programs_for_c06(thorough: bool) -> Gen<Vec<S>> {
     if thorough { programs(2, 3) } else { programs(2, 2) }
 }
@@ -266,6 +333,7 @@ pub fn spaces(tier: Tier) -> Vec<Box<dyn Space>> {
         v.push(Box::new(PruneSpace { id: "prune-b0-m3".into(), generator: programs(0, 3), profile: Profile::Fast, twin: false }));
     }
     v.push(Box::new(PruneSpace { id: "prune-b1-m2".into(), generator: programs(1, 2), profile: Profile::Poison, twin: false }));
+    v.push(Box::new(NeverRemovable));
     v.push(Box::new(PruneSpace { id: "recursive-callees".into(), generator: recursive_callee_programs(), profile: Profile::Fast, twin: false }));
     v.push(Box::new(PruneSpace { id: "dead-suffix".into(), generator: dead_suffix_programs(if t { 3 } else { 2 }), profile: Profile::Fast, twin: true }));
     v.push(Box::new(PruneSpace { id: "twin-b1-m2".into(), generator: programs(1, 2), profile: Profile::Fast, twin: true }));
